@@ -250,6 +250,19 @@ def seed_defect(p: Prog, cls: str, r: random.Random):
         i = r.choice(c)
         L.insert(i + 1, (f"  type({t2}) :: zz_hidden", "badtype"))
         return done(i + 1, ERR, "not found in scope")
+    if cls == "type_accessible_in_sibling_scope":
+        # a new module whose procedures differ in whether they can see dm1's type: only the one without USE is wrong
+        t1, _ = p.types["dm1"]
+        if _:
+            pass
+        ok_first = r.random() < 0.5
+        okp = ["  subroutine zz_sees(a)", "    use dm1", f"    type({t1}), intent(in) :: a", "  end subroutine zz_sees"]
+        badp = ["  subroutine zz_blind(b)", f"    type({t1}), intent(in) :: b", "  end subroutine zz_blind"]
+        body = (okp + badp) if ok_first else (badp + okp)
+        lines = ["module dm3", "  implicit none", "contains"] + body + ["end module dm3"]
+        fname = "dm3.f90"
+        files[fname] = [(t, "x") for t in lines]
+        return done(lines.index(badp[1]), ERR, "not found in scope")
     if cls == "arg_undeclared":
         c = positions(L, lambda t, g: g.startswith("proc:") and g.split(":")[2] not in ("", "self") and "iface_" not in g)
         if not c:
@@ -341,7 +354,8 @@ def seed_defect(p: Prog, cls: str, r: random.Random):
     raise ValueError(cls)
 
 
-CLASSES = ["declared_twice", "masks_host", "bare_end", "unknown_module", "type_not_accessible", "arg_undeclared",
+CLASSES = ["declared_twice", "masks_host", "bare_end", "unknown_module", "type_not_accessible", "type_accessible_in_sibling_scope",
+           "arg_undeclared",
            "intent_not_arg", "second_contains", "contains_no_scope", "implicit_no_scope", "public_no_scope",
            "private_no_scope", "import_outside_interface", "use_after_implicit", "procedure_before_contains",
            "procedure_in_block", "procedure_in_type", "deferred_not_implemented", "long_line"]
